@@ -83,6 +83,7 @@ def cases(draw, name, tier):
         for s in case["srcs"]:
             if s.get("alias") is not None and case["srcs"][s["alias"]]["fl"] == "list":
                 case["srcs"][s["alias"]]["fl"] = "iter"  # aliasing is about one-shot iterators
+    case["keep"] = True  # signatures of everything yielded are taken again at the very end
     if name == "tee" and case["params"]["n"] >= 2 and case["plan"]:
         # a child may also be closed / dropped early: its siblings must be unaffected
         k = case["params"]["n"]
